@@ -236,10 +236,16 @@ def chk_files(ctx, ops, prepopulate):
                 path = key + ".json"
                 if os.path.exists(path):
                     data = open(path).read()
+                    new_content = {"truncate": data[: len(data) // 2], "garbage": "}{" + data, "empty": "", "list": "[1, 2, 3]", "double": data + data,
+                                   "string": '"' + 'x' * 5 + '"', "second_line": "\n" + data}[how]
                     with open(path, "w") as fh:
-                        fh.write({"truncate": data[: len(data) // 2], "garbage": "}{" + data, "empty": "", "list": "[1, 2, 3]", "double": data + data,
-                                  "string": '"' + 'x' * 5 + '"', "second_line": "\n" + data}[how])
-                    model[key] = None
+                        fh.write(new_content)
+                    # what the file now holds, by an independent parse of its first line (half of a doubled file is the file again)
+                    try:
+                        obj = json.loads(new_content.split("\n")[0])
+                        model[key] = {int(k): [tuple(q) for q in v] for k, v in obj.items()} if isinstance(obj, dict) else None
+                    except (ValueError, TypeError, AttributeError):
+                        model[key] = None
             elif kind == "delete":
                 _, name, gb, n = op
                 key = f"{name}_{gb}_len{n}"
